@@ -104,6 +104,83 @@ func runHammer(kinds []string, g, nkeys, ops, procs int) error {
 	return nil
 }
 
+// runHoverHammer: g goroutines with private trees whose root hovers on the size-class thresholds:
+// the fan-out is driven 12 -> 17 -> 12 -> 49 -> 37 -> 49 ... so that every round releases and
+// acquires big nodes (node16/48/256) from the shared pools, all goroutines doing so at the same
+// time. After every phase the goroutine checks its whole tree against what it stored.
+func runHoverHammer(kinds []string, g, rounds, procs int) error {
+	old := runtime.GOMAXPROCS(procs)
+	defer runtime.GOMAXPROCS(old)
+	var wg sync.WaitGroup
+	errs := make([]error, g)
+	start := make(chan struct{})
+	for i := 0; i < g; i++ {
+		wg.Add(1)
+		go func(i int) {
+			defer wg.Done()
+			kn := kinds[i%len(kinds)]
+			kind := MustKind(kn)
+			defer func() {
+				if r := recover(); r != nil && errs[i] == nil {
+					errs[i] = fmt.Errorf("goroutine %d (private %s tree hovering on the size-class thresholds): an operation did not return normally: %v", i, kn, r)
+				}
+			}()
+			key := func(j int) []byte {
+				if kind.IsBytes() {
+					return kind.Canon([]byte{'h', byte(i + 1), byte(j + 1), 'x'})
+				}
+				return kind.Canon(rawOf(uint64(i+1)<<16 | uint64(j+1)))
+			}
+			sub := NewSubject(kind, IntVals)
+			present := map[int]int{}
+			check := func(phase string, round int) bool {
+				if sub.Size() != len(present) {
+					errs[i] = fmt.Errorf("goroutine %d (private %s tree), round %d, %s: Size() = %d, the goroutine stored %d keys", i, kn, round, phase, sub.Size(), len(present))
+					return false
+				}
+				for j, v := range present {
+					if got, ok := sub.Search(key(j)); !ok || got != v {
+						errs[i] = fmt.Errorf("goroutine %d (private %s tree), round %d, %s: Search(%s) = (%d,%v), the goroutine's own history says (%d,true)", i, kn, round, phase, kind.Show(key(j)), got, ok, v)
+						return false
+					}
+				}
+				return true
+			}
+			setTo := func(n, round int) bool {
+				for j := len(present); j < n; j++ {
+					present[j] = round*1000 + j
+					sub.Insert(key(j), round*1000+j)
+				}
+				for j := len(present) - 1; j >= n; j-- {
+					if !sub.Delete(key(j)) {
+						errs[i] = fmt.Errorf("goroutine %d (private %s tree), round %d: Delete(%s) of a stored key reports absent", i, kn, round, kind.Show(key(j)))
+						return false
+					}
+					delete(present, j)
+				}
+				return true
+			}
+			<-start
+			for r := 0; r < rounds; r++ {
+				for _, n := range []int{17, 12, 49, 37, 50, 36, 16, 3} {
+					if !setTo(n, r) || (r%8 == 0 && !check(fmt.Sprintf("fan-out %d", n), r)) {
+						return
+					}
+				}
+			}
+			check("end", rounds)
+		}(i)
+	}
+	close(start)
+	wg.Wait()
+	for _, e := range errs {
+		if e != nil {
+			return e
+		}
+	}
+	return nil
+}
+
 // runSharedHammer: one quiescent tree (built before the goroutines start) is read by g goroutines
 // at full speed: lookups of present and absent keys, extremes, short ranges and scans stopped
 // early. Every answer is compared with the one computed sequentially beforehand.
@@ -213,6 +290,12 @@ func replayHammer(tr *Trace) error {
 	ops, _ := strconv.Atoi(tr.Params["ops"])
 	procs, _ := strconv.Atoi(tr.Params["gomaxprocs"])
 	for i := 0; i < 5; i++ { // the failure depends on the schedule: several attempts
+		if tr.Params["hover"] == "1" {
+			if err := runHoverHammer(tr.Kinds, g, ops/400, procs); err != nil {
+				return err
+			}
+			continue
+		}
 		if tr.Params["shared"] == "1" {
 			if err := runSharedHammer(tr.Kinds[0], g, nk, ops, procs); err != nil {
 				return err
@@ -248,8 +331,12 @@ func TestC16Hammer(t *testing.T) {
 		nkeys := pick(rt, []int{1, 50, 1000}, "hkeys")
 		procs := pick(rt, []int{16, 16, 8, 4}, "hprocs")
 		shared := drawInt(rt, 0, 2, "shared") == 0
+		hover := !shared && drawInt(rt, 0, 1, "hover") == 0
 		var err error
-		if shared {
+		if hover {
+			// private trees whose root hovers on the thresholds 16/17, 48/49, 37/36, 12: pool traffic in the big classes
+			err = runHoverHammer(kinds, g, ops/400, procs)
+		} else if shared {
 			// one quiescent tree read by all goroutines (no collation trees: their codec writes scratch state per query)
 			kinds = kinds[:1]
 			nkeys = max(nkeys, 2)
@@ -261,7 +348,10 @@ func TestC16Hammer(t *testing.T) {
 		if shared {
 			tr.Params["shared"] = "1"
 		}
-		stats.AddCase(true, tr.Hash()^uint64(g*131+nkeys*7+procs), []string{"part_C_hammer", "hammer_goroutines_" + strconv.Itoa(g), "hammer_shared_" + strconv.FormatBool(shared)}, func() any {
+		if hover {
+			tr.Params["hover"] = "1"
+		}
+		stats.AddCase(true, tr.Hash()^uint64(g*131+nkeys*7+procs), []string{"part_C_hammer", "hammer_goroutines_" + strconv.Itoa(g), "hammer_shared_" + strconv.FormatBool(shared), "hammer_hover_" + strconv.FormatBool(hover)}, func() any {
 			return map[string]any{"part": "C-hammer", "goroutines": g, "kinds": kinds, "keys_per_tree": nkeys, "ops_per_goroutine": ops, "gomaxprocs": procs}
 		})
 		if err != nil {
